@@ -12,6 +12,7 @@ import copy
 import itertools
 
 from .. import api, engine
+from .. import histories as H
 
 ID = "C05"
 LEVEL = "exploration"
@@ -451,10 +452,14 @@ def plan(tier):
         for p in range(4):
             shards.append({"kind": "pairs", "skeleton": s, "part": p, "parts": 4})
     shards += [{"kind": "inside-product", "skeleton": s} for s in SKELETONS]
+    shards += H.plan_shards(['flags', 'faults', 'minor-versions'])
     return shards
 
 
 def cases(shard, tier):
+    if shard.get("kind") == "call-histories":
+        yield from H.cases_of(shard)
+        return
     build_index()
     if shard["kind"] == "multi":
         for i, c in enumerate(multi_cases()):
@@ -498,6 +503,8 @@ def hash_stable(s: str) -> int:
 
 
 def check_case(case, R: engine.Acc):
+    if case.get("kind") == "call-history":
+        return H.check_history(case["label"], R, H.project_verdict, 'verdict-depends-on-earlier-calls', 'a definition set is accepted iff it obeys the rules under the flags of THIS call')
     build_index()
     if case.get("kind") == "multi":
         return check_multi(case, R)
